@@ -37,6 +37,7 @@ var tkPool = []string{
 	" ", "  ", "\t \t", "\n", "\r\n", "\n\r", "\r", "\r\r", "a\nb", "a\r\nb", "a \n\n b", "x\ry", " a", "a ",
 	"a,b", "a,\"b,c\",d", "a,b\nc,d", "\"a\"\"b\",c", ",", ",,", "a;b", "\"a\nb\",c\r\nd",
 	"and", "Or", "not x", "a AND b", "true", "Null", "a like b", "x xor y",
+	"1 /** doc **/ + 2 /* x */ - 3", "/***/1", "a /* boxed **/ b /**/ c", "/*/ x */ y",
 	"a /* c */ b", " /**/ ", " # c\n x", "a // c\n b", "/*a*/ /*b*/", " /*a*/\t/*b*/ ",
 	"{{'}}'x}}y", "{{a 😀 b}}c", "{{\"}}}\"}}", "a😀{{b}}", "{{#a}}'{{'{{/a}}", "{{a}}😀{{b}}",
 	"a + b*c", "f(x, y)", "a<=b<>c", "x IS NOT NULL", "a[1]", "1+-2", "a.b", "a-b", "a - -1", "1/2", "1/*c*/2", "a'b'c", "é'ж'😀", "😀", "a😀b", "\x00", "a\x00b", "ÿĀ",
@@ -375,6 +376,9 @@ func (c *Ctx) tkRun(kind, part string) *tkVerdict {
 				return
 			}
 			pool := tkPool
+			if w == 0 {
+				tkOtherInstances(c, kind, v)
+			}
 			for i := w; i < len(pool); i += nw {
 				s1 := pool[i]
 				for _, s2 := range pool {
@@ -560,4 +564,78 @@ func tkEmit(c *Ctx, rule, check, okText string) []*Obligation {
 	}
 	sort.SliceStable(o.list, func(i, j int) bool { return o.list[i].Construct < o.list[j].Construct })
 	return o.list
+}
+
+// tkOtherInstances: what one tokenizer produces does not depend on other instances living in the same
+// process - their construction, their use, or changes made to their configuration through the API.
+func tkOtherInstances(c *Ctx, kind string, v *tkVerdict) {
+	m := newMach(c)
+	h := c.newTkHarnessOn(m, kind)
+	if h.fault != "" {
+		v.note("reuse", "", h.fault)
+		return
+	}
+	h.setOptions(0)
+	sample := []string{"net-price x-1", "a<=b<>c <- d", "Øre ÿz ж1", "a1 # c\n b", "12.5e3 'q' \"r\"", "{{#a}}x{{/a}} a=b", "a,b;c\r\nd", "q q1 xq"}
+	snapshot := func(hh *tkHarness) []string {
+		var out []string
+		for _, s := range sample {
+			r := hh.tokenize(s)
+			out = append(out, r.kind+" "+renderToks(r.toks)+r.why)
+		}
+		return out
+	}
+	before := snapshot(h)
+	for _, other := range append([]string{kind}, tkKinds...) {
+		o := c.newTkHarnessOn(m, other)
+		if o.fault != "" {
+			continue
+		}
+		o.setOptions(0)
+		snapshot(o)
+		// reconfigure the other instance through its API
+		for _, st := range []struct {
+			state, method string
+			args          []mv
+		}{
+			{"WordState", "SetWordChars", []mv{int64('#'), int64('#'), true}},
+			{"WordState", "SetWordChars", []mv{int64('a'), int64('c'), false}},
+			{"WordState", "SetWordChars", []mv{int64('-'), int64('-'), false}},
+			{"WhitespaceState", "SetWhitespaceChars", []mv{int64('x'), int64('x'), true}},
+			{"SymbolState", "Add", []mv{"<-", int64(7)}},
+			{"SymbolState", "Add", []mv{"a=", int64(7)}},
+		} {
+			sv, out := o.call(st.state)
+			si, ok := sv.(mIface)
+			if out.kind != "ok" || !ok {
+				continue
+			}
+			if f := c.lookupMethod(si.t, st.method); f != nil {
+				m.Call(f, append([]mv{si.v}, st.args...)...)
+			}
+		}
+		o.call("SetCharacterState", int64('q'), int64('q'), mNil)
+		snapshot(o)
+		after := snapshot(h)
+		for i := range sample {
+			if after[i] != before[i] {
+				v.note("reuse", fmt.Sprintf("%s tokenizer on %q gives [%s] after another %s tokenizer was created, used and reconfigured in the same process; before it gave [%s]: the instances share state", kind, sample[i], after[i], other, before[i]), "")
+				return
+			}
+		}
+		v.note("reuse", "", "")
+	}
+	// an instance created afterwards starts from the same defaults
+	h2 := c.newTkHarnessOn(m, kind)
+	if h2.fault == "" {
+		h2.setOptions(0)
+		late := snapshot(h2)
+		for i := range sample {
+			if late[i] != before[i] {
+				v.note("reuse", fmt.Sprintf("a %s tokenizer created after other instances were reconfigured gives [%s] on %q; the first instance gave [%s]: defaults are shared and were changed", kind, late[i], sample[i], before[i]), "")
+				return
+			}
+		}
+		v.note("reuse", "", "")
+	}
 }
